@@ -269,8 +269,18 @@ func runPrograms(a lib.Args, res *lib.Result, po progOpts) error {
 					continue
 				}
 				kind, sig := classify(s, class)
+				what := fmt.Sprintf("step %d of program %d (%s): implementation and model differ: %s", j, i, po.name, class)
+				if strings.Contains(s.Impl, "InternalError") || strings.Contains(s.Impl, "TRANSPORT") || strings.Contains(s.Impl, "HTTP5") {
+					for gi, gwp := range w.Gws {
+						l := gwp.Log.String()
+						if len(l) > 1500 {
+							l = l[len(l)-1500:]
+						}
+						what += fmt.Sprintf("\n--- gateway %d log tail ---\n%s", gi, l)
+					}
+				}
 				res.Fail(lib.Failure{Kind: kind, Signature: sig,
-					What:  fmt.Sprintf("step %d of program %d (%s): implementation and model differ: %s", j, i, po.name, class),
+					What:  what,
 					Input: map[string]interface{}{"family": po.name, "program_index": i, "seed": a.Seed, "steps": prog.Describe(steps, j)},
 					Impl:  s.Impl, Model: s.Model})
 				if strings.HasPrefix(class, "events-differ") {
